@@ -205,9 +205,45 @@ def has_newline_string(t):
 
 # ---------------------------------------------------------------- generators
 
-ENTS = ["a", "np", "hd-cmp_u_c", "S", "x_y", "n_-_pn_le", "b2", "Q", "sb-hd_mc_c", "\\x", 'e"q']
-TYPES = ["t", "n_-_c_le", "typ", "a@b", "T2"]
-ROOTS = ["root", "root_informal", "r"]
+ENTS = ["a", "np", "hd-cmp_u_c", "S", "x_y", "n_-_pn_le", "b2", "Q", "sb-hd_mc_c",
+        # case variants of one name (UDFNode.__eq__ lower-cases entities; the strings must still be kept exactly)
+        "Foo", "foo", "FOO", "np_x", "NP_X", "Np_x", "A", "NP", "s", "q", "HD-CMP_U_C", "X_y",
+        "\\x", 'e"q', "\\X", 'E"Q']
+N_PLAIN_ENTS = 21
+TYPES = ["t", "n_-_c_le", "typ", "a@b", "T2", "Typ", "TYP", "T", "N_-_C_LE", "A@b", "t2"]
+ROOTS = ["root", "root_informal", "r", "Root", "ROOT", "R"]
+CASE_FAMILIES = [["Foo", "foo", "FOO", "fOO"], ["np_x", "NP_X", "Np_X"], ["a", "A"], ["s", "S"],
+                 ["hd-cmp_u_c", "HD-CMP_U_C", "Hd-Cmp_u_c"], ["Éa", "éa", "ÉA"]]
+TYPE_FAMILIES = [["Typ", "typ", "TYP"], ["t", "T"], ["n_-_c_le", "N_-_C_LE"], ["a@b", "A@B", "a@B"]]
+FORM_FAMILIES = [["dog", "Dog", "DOG"], ["the", "The", "THE"], ["ad hoc", "Ad Hoc", "AD HOC"], ["x", "X"],
+                 ["say \\\"hi\\\"", "Say \\\"Hi\\\"", "SAY \\\"HI\\\""]]
+
+
+def swap_tree(t):
+    """the same tree with the letter case of every entity, type, form and tfs swapped"""
+    t = copy.deepcopy(t)
+    for n in walk(t):
+        if n["k"] == "t":
+            n["f"] = cps(uncps(n["f"]).swapcase())
+            n["toks"] = [[i, cps(uncps(x).swapcase())] for i, x in n["toks"]]
+        else:
+            n["e"] = cps(uncps(n["e"]).swapcase())
+            if n["k"] == "n" and n["ty"] is not None:
+                n["ty"] = cps(uncps(n["ty"]).swapcase())
+    return t
+
+
+def case_variant_tree(t):
+    """does some name occur in two different capitalisations in the tree?"""
+    for pick in (lambda n: [uncps(n["e"])] if n["k"] != "t" else [],
+                 lambda n: [uncps(n["ty"])] if n["k"] == "n" and n["ty"] is not None else [],
+                 lambda n: [uncps(n["f"])] if n["k"] == "t" else []):
+        seen = {}
+        for n in walk(t):
+            for x in pick(n):
+                if seen.setdefault(x.lower(), x) != x:
+                    return True
+    return False
 SCORES = ["-1", "0", "1", "1.5", "-0.25", "2e-05", "1e+20", "3.14159", "-7", "0.5", "inf", "-inf"]
 FORMS = ["x", "dog", "the", "ad hoc", "", "a b", "(", ")", "a(b", "say \\\"hi\\\"", "back\\\\slash", "é", "x ",
          " y", "1", "a b c", "\\\\", "\\\"", "it's", "[", "a  b"]
@@ -252,6 +288,10 @@ class Gen:
         self.pos = 0
         self.allow_nl = allow_nl
         self.allow_paren = allow_paren
+        # a third of the trees use several capitalisations of ONE entity / type / form name
+        self.fam = rng.choice(CASE_FAMILIES) if rng.random() < 0.35 else None
+        self.tfam = rng.choice(TYPE_FAMILIES) if rng.random() < 0.35 else None
+        self.ffam = rng.choice(FORM_FAMILIES) if rng.random() < 0.3 else None
 
     def term(self):
         rng = self.rng
@@ -260,16 +300,23 @@ class Gen:
         toks = []
         for _ in range(k):
             toks.append((rng.choice([0, 1, 2, 7, 42, 10, 123]), gen_tfs(rng, nl, self.allow_paren)))
-        return T(gen_form(rng, nl, self.allow_paren), toks)
+        form = gen_form(rng, nl, self.allow_paren)
+        if self.ffam and rng.random() < 0.7:
+            form = rng.choice(self.ffam)
+        return T(form, toks)
 
     def node(self, dep, maxb, weird):
         rng = self.rng
         nid = self.next_id if rng.random() < 0.85 else rng.choice([0, -1, 100000, 7])
         self.next_id += 1
-        e = rng.choice(ENTS[:9] if rng.random() < 0.9 else ENTS)
+        e = rng.choice(ENTS[:N_PLAIN_ENTS] if rng.random() < 0.9 else ENTS)
+        if self.fam and rng.random() < 0.7:
+            e = rng.choice(self.fam)
         sc = rng.choice(SCORES)
         h = rng.random() < 0.35
         ty = rng.choice(TYPES) if rng.random() < 0.35 else None
+        if self.tfam and rng.random() < 0.6:
+            ty = rng.choice(self.tfam)
         st = self.pos if rng.random() < 0.9 else -1
         if dep <= 1 or rng.random() < 0.3:
             ds = [self.term()]
@@ -311,6 +358,14 @@ def enum_small_trees():
         out.append(p)
         if hp and t1:
             out.append(R("r", [p]))
+    # the same name in two capitalisations on two nodes of one tree, both orders; and on consecutive cases
+    for e1, e2 in itertools.permutations(["Foo", "foo", "FOO"], 2):
+        for ty1, ty2 in (("Typ", "typ"), ("typ", "TYP"), (None, None)):
+            out.append(N(1, e1, "-1", 0, 2, [N(2, e2, "0", 0, 1, [T("Dog")], False, ty1),
+                                             N(3, e1, "0", 1, 2, [T("dog")], True, ty2)], False, ty1))
+    for e in ("np_x", "NP_X", "Np_X", "np_x"):
+        out.append(N(1, e, "-1", 0, 1, [T("The", [(1, "Tok"), (2, "tok")])], True, e.swapcase()))
+        out.append(R("Root" if e.islower() else "root", [N(1, e, "-1", 0, 1, [T("the")])]))
     # unary chain, ternary branching
     c = N(4, "d", "2e-05", 0, 1, [T("z", [(0, ""), (1, " "), (2, "]")])], True, None)
     out.append(N(1, "a", "-1", 0, 1, [N(2, "b", "-1", 0, 1, [N(3, "c", "-1", 0, 1, [c])])]))
@@ -392,7 +447,10 @@ class C16(Check):
             "plus multi-terminal and mixed-daughter nodes, LKB-style terminal texts, malformed texts (character "
             "mutations of serializations and a hand list), mutated dictionaries.  Exhaustive enumeration of the "
             "head/type/root/token placements on trees of <= 3 nodes first.  A case is non-trivial if its tree has a "
-            "non-terminal or its text is non-empty; distinct by JSON text.")
+            "non-terminal or its text is non-empty; distinct by JSON text.  Entity, type and form alphabets contain "
+            "case variants of one name (Foo/foo/FOO, np_x/NP_X, Typ/typ, dog/Dog); a third of the trees draw several "
+            "capitalisations of one name; every tree case is also run on its case-swapped twin and re-parsed afterwards "
+            "(purity).")
     assumptions = [
         "scores are compared as '{:g}'.format(score) text; the float <-> text conversion is exercised on the "
         "implementation side only (model carries the printed text)",
@@ -575,6 +633,40 @@ class C16(Check):
                 v = res.get(key)
                 if isinstance(v, dict) and v.get("err") == "TypeError":
                     fail("unexpected TypeError", key)
+        # PURITY for texts and dictionaries: the same input gives the same result after a call on the
+        # case-swapped input
+        if k in ("text", "lkb"):
+            s = uncps(case["s"])
+            r1 = guarded(lambda: obs(D.from_string(s)))
+            r_sw = guarded(lambda: obs(D.from_string(s.swapcase())))
+            r2 = guarded(lambda: obs(D.from_string(s)))
+            if not (r1 == r2 == res["parse"]):
+                fail("from_string is not a function of its text (result changed after other calls)", repr(s))
+            if "ok" in r1 and "ok" in r_sw and len(s.swapcase()) == len(s):
+                # parse(swapcase(text)) == swapcase(parse(text)) except for scores (inf/nan/e spellings)
+                def strs(o):
+                    if o["k"] == "t":
+                        return [uncps(o["f"])] + [uncps(x) for _, x in o["toks"]]
+                    out = [uncps(o["e"])] + ([uncps(o["ty"])] if o.get("ty") is not None else [])
+                    for dd in o["d"]:
+                        out += strs(dd)
+                    return out
+                if [x.swapcase() for x in strs(r1["ok"])] != strs(r_sw["ok"]):
+                    fail("the case-swapped text does not parse to the case-swapped names", repr(s))
+        elif k == "dict":
+            def swd(c):
+                c = dict(c)
+                for key in ("entity", "type", "form"):
+                    if c[key] is not None:
+                        c[key] = cps(uncps(c[key]).swapcase())
+                if c["daughters"] is not None:
+                    c["daughters"] = [swd(x) for x in c["daughters"]]
+                return c
+            r1 = guarded(lambda: obs(D.from_dict(real_dict(case["d"]))))
+            guarded(lambda: obs(D.from_dict(real_dict(swd(case["d"])))))
+            r2 = guarded(lambda: obs(D.from_dict(real_dict(case["d"]))))
+            if not (r1 == r2 == res["fd"]):
+                fail("from_dict is not a function of its dictionary (result changed after other calls)", "")
         return fails
 
     def _attr_diff(self, a, b, path="top"):
@@ -664,10 +756,69 @@ class C16(Check):
                     rec(d, n, dep + 1)
         rec(top, None, 0)
 
+    def _exact_roundtrip(self, t, what, fail):
+        """text and dictionary round trip of `t` with EXACT comparison of every string (entity, type,
+        form, tfs) and of the re-serialized text -- never through `==` of nodes, which is
+        case-insensitive for entities"""
+        top = build_top(t)
+        erased = build_top(erase_ht(t))
+        for udx, ref in ((False, erased), (True, top)):
+            ser = (lambda o, i: o.to_udx(indent=i)) if udx else (lambda o, i: o.to_udf(indent=i))
+            text = ser(top, None)
+            try:
+                p = D.from_string(text)
+            except Exception as e:
+                fail("from_string raises on %s" % what, repr((text, type(e).__name__)))
+                continue
+            if ser(p, None) != text or ser(p, 1) != ser(top, 1):
+                fail("re-serialized text differs on %s" % what, repr((text, ser(p, None))))
+            d = self._attr_diff(ref, p)
+            if d:
+                fail("parsed tree differs in an attribute on %s" % what, repr((d, text)))
+            if obs(p) != obs(ref):
+                fail("parsed tree differs in an attribute on %s" % what, repr(("obs", text)))
+        if dict_shape(t):
+            dd = top.to_dict()
+            try:
+                q = D.from_dict(dd)
+            except Exception as e:
+                fail("from_dict raises on %s" % what, repr((dd, type(e).__name__)))
+                return
+            d = self._attr_diff(top, q)
+            if d or obs(q) != obs(top):
+                fail("from_dict(to_dict(t)) differs in an attribute on %s" % what, repr((d, dd)))
+            if canon_dict(q.to_dict()) != canon_dict(dd):
+                fail("to_dict(from_dict(to_dict(t))) differs on %s" % what, repr(dd))
+
     def _oracle_tree(self, t, fail):
         top = build_top(t)
         shape = dict_shape(t)
         erased = build_top(erase_ht(t))
+        # PURITY, part 1: remember what the parsers return the first time (within this oracle)
+        first_texts = [top.to_udf(indent=None), top.to_udx(indent=2)]
+        first_parse = [guarded(lambda x=x: obs(D.from_string(x))) for x in first_texts]
+        first_dict = top.to_dict() if shape else None
+        first_fd = guarded(lambda: obs(D.from_dict(copy.deepcopy(first_dict)))) if shape else None
+        self._oracle_tree_battery(t, top, shape, erased, fail)
+        # a DIFFERENT derivation in between: the same tree with the letter case of every name swapped;
+        # it must itself round-trip exactly …
+        sw = swap_tree(t)
+        if sw != t:
+            self._exact_roundtrip(sw, "the case-swapped tree", fail)
+        # … and the original, parsed again afterwards, must give what it gave the first time
+        self._exact_roundtrip(t, "the tree after parsing its case-swapped variant", fail)
+        again = [guarded(lambda x=x: obs(D.from_string(x))) for x in first_texts]
+        if again != first_parse:
+            fail("from_string is not a function of its text (result changed after other calls)",
+                 repr(first_texts[0]))
+        if shape:
+            if top.to_dict() != first_dict and not _dict_eq(top.to_dict(), first_dict):
+                fail("to_dict changed after other calls", repr(first_dict))
+            if guarded(lambda: obs(D.from_dict(copy.deepcopy(first_dict)))) != first_fd:
+                fail("from_dict is not a function of its dictionary (result changed after other calls)",
+                     repr(first_dict))
+
+    def _oracle_tree_battery(self, t, top, shape, erased, fail):
         for udx in (False, True):
             name = "udx" if udx else "udf"
             ser = (lambda o, i: o.to_udx(indent=i)) if udx else (lambda o, i: o.to_udf(indent=i))
@@ -685,7 +836,7 @@ class C16(Check):
                              repr((ind, i2, text, ser(p, i2))))
                         break
                 d = self._attr_diff(ref, p)
-                if d:
+                if d or obs(p) != obs(ref):
                     fail("parsed %s tree differs from the original in an attribute" % name, repr((d, text)))
                 elif not mixed(t) and (not (p == ref) or (p != ref)):
                     fail("parsed %s tree is not == the original" % name, repr(text))
@@ -777,6 +928,10 @@ class C16(Check):
                     inc("string:space")
             if header_capture(t):
                 inc("tree:quoted-string-looks-like-node-header")
+            if case_variant_tree(t):
+                inc("tree:same-name-in-two-capitalisations")
+            if any(x.lower() != x for n in nodes if n["k"] != "t" for x in [uncps(n["e"])]):
+                inc("tree:entity-with-upper-case")
         if isinstance(res, dict):
             for key in ("p_udf", "p_udx", "fd", "parse"):
                 v = res.get(key)
